@@ -307,12 +307,20 @@ class C19(core.Check):
                     slices[f"{axis}:{idx}"] = type(e).__name__
         # delete one addressed operation and look at the written blocks
         deleted: Any = None
+        attrs: List[Any] = []
         if case["delete"] is None:
             return {"dims_ok": dims_ok, "grid": grid, "ops": ops, "slices": slices, "deleted": None}
         i, j, k = case["delete"]
-        for op in stack.operations:
-            for axis in range(3):
-                op.chop(axis, count=1)
+        # every addressed operation gets its own cell zone and the counts of its column / row / tier
+        # (operations sharing an edge agree): deleting one must leave the others as they are
+        for kk in range(nz):
+            for jj in range(ny):
+                for ii in range(nx):
+                    op = stack.grid[kk][jj][ii]
+                    op.set_cell_zone(f"z{ii}_{jj}_{kk}")
+                    op.chop(0, count=2 + ii)
+                    op.chop(1, count=7 + jj)
+                    op.chop(2, count=13 + kk)
         mesh = cb.Mesh()
         mesh.add(stack)
         try:
@@ -329,16 +337,19 @@ class C19(core.Check):
                 for m in re.finditer(r"^\t\((\S+) (\S+) (\S+)\) // \d+$", text, re.M)
             ]
             deleted = []
-            for m in re.finditer(r"^\thex \( ([\d ]+) \)", text, re.M):
+            attrs = []
+            for m in re.finditer(r"^\thex \( ([\d ]+) \) (\S*) \( ([\d ]+) \)", text, re.M):
                 vi = [int(x) for x in m.group(1).split()]
                 b = np.mean([verts[v] for v in vi[:4]], axis=0).tolist()
                 t = np.mean([verts[v] for v in vi[4:]], axis=0).tolist()
                 deleted.append(lab(nearest(b, centres, 1e-5), nearest(t, centres, 1e-5)))
+                attrs.append([deleted[-1], m.group(2), [int(x) for x in m.group(3).split()]])
         except Exception as e:
             deleted = type(e).__name__
             if nx * ny * nz == 1 and deleted == "RuntimeError":
                 deleted = []  # the only operation is deleted: nothing is left to assemble, write() refuses
-        return {"dims_ok": dims_ok, "grid": grid, "ops": ops, "slices": slices, "deleted": deleted}
+        return {"dims_ok": dims_ok, "grid": grid, "ops": ops, "slices": slices, "deleted": deleted,
+                "deleted_attrs": attrs if isinstance(deleted, list) and deleted else []}
 
     def _run_round(self, case: dict) -> Any:
         import numpy as np
@@ -478,6 +489,22 @@ class C19(core.Check):
                 return out
             i, j, k = case["delete"]
             gone = f"{i}.{j}.{k}~{i}.{j}.{k + 1}"
+            for label, zone, counts in impl.get("deleted_attrs", []):
+                m = re.fullmatch(r"(\d+)\.(\d+)\.(\d+)~.*", label)
+                if not m:
+                    continue
+                ii, jj, kk = (int(x) for x in m.groups())
+                if zone != f"z{ii}_{jj}_{kk}" or counts != [2 + ii, 7 + jj, 13 + kk]:
+                    out.append(
+                        {
+                            "site": "Mesh.delete:stack-operation:other-block-changed",
+                            "what": f"after delete(grid[{k}][{j}][{i}]) the block over cell {ii}.{jj}.{kk} is written with zone "
+                            f"'{zone}' and counts {counts}; its operation has zone 'z{ii}_{jj}_{kk}' and counts {[2 + ii, 7 + jj, 13 + kk]}",
+                            "observed": [zone, counts],
+                            "expected": [f"z{ii}_{jj}_{kk}", [2 + ii, 7 + jj, 13 + kk]],
+                        }
+                    )
+                    break
             left = impl["deleted"]
             if not isinstance(left, list) or sorted(left) != sorted(o for o in allops if o != gone):
                 out.append(
